@@ -32,6 +32,7 @@ struct Profile {
   int p_casfail = 15;
   bool guard_level = false;     // only op-level preemption
   int p_prep_scn = 0;           // percent of OptimisticLock cases built around the PrepareRead fallback scenario
+  int p_tiny = 25;              // percent of cases that are tiny: one short transaction per thread, 1-3 early preemptions
   int p_nest = 0;               // percent of (non-MCS) cases that contain nested compatible grants of one thread on one lock
   int max_threads_hi = 4;       // thorough tier may raise
 };
@@ -62,6 +63,7 @@ profile_of(const std::string &p)
     f.p_casfail = 30;
   } else if (p == "C07") {
     f.guard_level = true;
+    f.p_tiny = 0;
     f.p_nest = 45;
     f.w_juggle = 6;
     f.p_juggle_inside = 45;
@@ -106,6 +108,8 @@ profile_of(const std::string &p)
     f.min_thr = 3;
     f.max_thr = 6;
     f.max_txn = 2;
+    f.p_tiny = 45;
+    f.w_six = 5;
     f.p_two_locks = 0;
     f.p_conv = 15;
     f.w_juggle = 0;
@@ -466,13 +470,14 @@ gen_case(const Profile &f)
       }
     }
   }
-  const int nthr = pick(f.min_thr, f.max_thr);
+  const bool tiny = chance(f.p_tiny);
+  const int nthr = tiny ? pick(std::max(2, f.min_thr), std::max(3, std::min(4, f.max_thr))) : pick(f.min_thr, f.max_thr);
   c.allow_nesting = c.cls != kMcs && chance(f.p_nest);
   uint32_t fresh = 0;
   c.threads.resize(nthr);
   for (int t = 0; t < nthr; t++) {
     Builder b{f, c.cls, c.nlocks, &fresh, {}, c.allow_nesting};
-    const int ntx = pick(f.min_txn, f.max_txn);
+    const int ntx = tiny ? 1 : pick(f.min_txn, f.max_txn);
     for (int k = 0; k < ntx; k++) {
       const int l = c.nlocks == 2 ? pick(0, 1) : 0;
       b.txn(l, true);
@@ -533,7 +538,11 @@ gen_case(const Profile &f)
   auto est_steps = [&](int t) { return 14 * static_cast<int>(c.threads[t].ops.size()) + 8; };
   const int style = f.guard_level ? (weighted({f.sw_none, 0, 0, f.sw_oplevel}))
                                   : weighted({f.sw_none, f.sw_targeted, f.sw_dense, f.sw_oplevel});
-  if (style == 1) {
+  if (tiny && !f.guard_level) {
+    // protocol windows are a few steps wide and lie at the start of a call: early, densely placed preemptions
+    const int k = pick(1, 3);
+    for (int i = 0; i < k; i++) c.sched.preempts.push_back({pick(0, nthr - 1), static_cast<uint32_t>(pick(0, 14)), pick(0, 2)});
+  } else if (style == 1) {
     const int k = pick(1, f.max_preempts);
     for (int i = 0; i < k; i++) {
       const int t = pick(0, nthr - 1);
@@ -590,6 +599,11 @@ classify(const std::string &p, const Case &c, const Outcome &o, std::vector<std:
   labels.push_back(std::string("sched=") + (c.sched.preempts.empty() && c.oppre.empty() ? "none" : c.sched.preempts.size() > 8 ? "dense" : c.sched.preempts.empty() ? "oplevel" : "targeted"));
   if (!c.sched.casfails.empty()) labels.push_back("casfail");
   if (c.allow_nesting) labels.push_back("nested_grants");
+  {
+    size_t ops = 0;
+    for (auto &t : c.threads) ops += t.ops.size();
+    if (ops <= 5 * c.threads.size()) labels.push_back("tiny_program");
+  }
   if (o.contended) labels.push_back("contended");
   if (o.waited_granted) labels.push_back("waited_granted");
   if (o.conv_raced) labels.push_back("conv_raced");
